@@ -119,3 +119,26 @@ def run_orders(case):
     finally:
         shutil.rmtree(tmp, ignore_errors=True)
     return {"tab": tab, "res": res}
+
+
+def run_oldsort(case):
+    """the ORIGINAL ordering step: sorted(rules) with SigmaRuleBase.__lt__ ('is referenced by'),
+    on a collection whose references were resolved through the public API"""
+    from sigma.correlations import SigmaCorrelationRule
+    docs = [build(case["docs"][i]) for i in case["perm"]]
+    col = SigmaCollection.from_dicts(copy.deepcopy(docs), resolve_references=False)
+    rules = list(col.rules)
+    try:
+        for r in rules:
+            if isinstance(r, SigmaCorrelationRule):
+                r.resolve_rule_references(col)
+        out = sorted(rules)
+    except SigmaError:
+        return {"skip": "unresolvable"}
+    except TypeError:
+        return {"skip": "rules are not comparable any more"}
+
+    def pos(x):
+        return next(i for i, y in enumerate(rules) if y is x)
+    rr = [[pos(ref.rule) for ref in r.referenced_rules] if isinstance(r, SigmaCorrelationRule) else [] for r in rules]
+    return {"rr": rr, "sorted": [pos(x) for x in out]}
